@@ -56,6 +56,24 @@ theorem mapFieldMB_sound (f : FieldD) (c : Nat) (h : mapFieldMB f c = true) : Ma
   exact ⟨h.1.1.1.1.1.1.1.1, h.1.1.1.1.1.1.1.2, h.1.1.1.1.1.1.2, h.1.1.1.1.1.2, h.1.1.1.1.2, h.1.1.1.2,
     h.1.1.2, h.1.2, h.2⟩
 
+theorem timesFieldB_sound (f : FieldD) (isDur : Bool) (h : timesFieldB f isDur = true) : TimesField f isDur := by
+  unfold timesFieldB at h
+  simp only [Bool.and_eq_true, Option.isNone_iff_eq_none, beq_iff_eq, Bool.not_eq_true'] at h
+  exact ⟨h.1.1.1.1.1.1, h.1.1.1.1.1.2, h.1.1.1.1.2, h.1.1.1.2, h.1.1.2, h.1.2, h.2⟩
+
+theorem mapFieldTB_sound (f : FieldD) (isDur : Bool) (h : mapFieldTB f isDur = true) : MapFieldT f isDur := by
+  unfold mapFieldTB at h
+  simp only [Bool.and_eq_true, Option.isNone_iff_eq_none, beq_iff_eq, Bool.not_eq_true', mapKeyTypeB_eq] at h
+  exact ⟨h.1.1.1.1.1.1.1.1, h.1.1.1.1.1.1.1.2, h.1.1.1.1.1.1.2, h.1.1.1.1.1.2, h.1.1.1.1.2, h.1.1.1.2,
+    h.1.1.2, h.1.2, h.2⟩
+
+theorem timeValOkB_eq (isDur : Bool) (v : Val) : timeValOkB isDur v = timeValOk isDur v := by
+  cases v <;> rfl
+
+theorem all_timeValOk (isDur : Bool) (xs : List Val) (h : xs.all (timeValOkB isDur) = true) :
+    ∀ x ∈ xs, timeValOk isDur x = true := by
+  simpa [List.all_eq_true, timeValOkB_eq] using h
+
 theorem subFieldAnyB_sound (f : FieldD) (h : subFieldAnyB f = true) : ∃ c, SubField f c := by
   unfold subFieldAnyB at h
   split at h
@@ -305,7 +323,7 @@ theorem slotOkB_sound (S : Schema) (f : FieldD) : ∀ (v : Val), slotOkB S f v =
   | .list xs, h => by
     rw [slotOkB] at h
     simp only [Bool.or_eq_true] at h
-    rcases h with h | h
+    rcases h with ((h | h) | h) | h
     · simp only [Bool.and_eq_true] at h
       exact SlotOk.flat f (.list xs) (flatFieldB_sound f h.1.1) (by simp only [flatSlotOk, h.1.2, h.2]; rfl)
     · cases hk : f.kind with
@@ -316,6 +334,10 @@ theorem slotOkB_sound (S : Schema) (f : FieldD) : ∀ (v : Val), slotOkB S f v =
         exact SlotOk.subs f c xs (subFieldB_sound f c hsf) h.1.2 (msgsOkB_sound S c xs h.2)
       | timestamp => rw [hk] at h; exact absurd h (by simp)
       | duration => rw [hk] at h; exact absurd h (by simp)
+    · simp only [Bool.and_eq_true] at h
+      exact SlotOk.tss f xs (timesFieldB_sound f false h.1) (all_timeValOk false xs h.2)
+    · simp only [Bool.and_eq_true] at h
+      exact SlotOk.durs f xs (timesFieldB_sound f true h.1) (all_timeValOk true xs h.2)
   | .ts us, h => by
     rw [slotOkB] at h
     simp only [Bool.and_eq_true] at h
@@ -327,7 +349,7 @@ theorem slotOkB_sound (S : Schema) (f : FieldD) : ∀ (v : Val), slotOkB S f v =
   | .dict ks vs, h => by
     rw [slotOkB] at h
     simp only [Bool.or_eq_true] at h
-    rcases h with h | h
+    rcases h with ((h | h) | h) | h
     · simp only [Bool.and_eq_true, beq_iff_eq] at h
       obtain ⟨⟨⟨⟨h1, h2⟩, h3⟩, h4⟩, h5⟩ := h
       exact SlotOk.mapS f ks vs (mapFieldSB_sound f h1) h2 (all_scalarOk _ _ h3) (all_scalarOk _ _ h4)
@@ -342,6 +364,14 @@ theorem slotOkB_sound (S : Schema) (f : FieldD) : ∀ (v : Val), slotOkB S f v =
           (msgsOkB_sound S c vs h4) (keysDistinctB_sound ks h5)
       | timestamp => rw [hk] at h; exact absurd h (by simp)
       | duration => rw [hk] at h; exact absurd h (by simp)
+    · simp only [Bool.and_eq_true, beq_iff_eq] at h
+      obtain ⟨⟨⟨⟨h1, h2⟩, h3⟩, h4⟩, h5⟩ := h
+      exact SlotOk.mapT f false ks vs (mapFieldTB_sound f false h1) h2 (all_scalarOk _ _ h3)
+        (all_timeValOk false vs h4) (keysDistinctB_sound ks h5)
+    · simp only [Bool.and_eq_true, beq_iff_eq] at h
+      obtain ⟨⟨⟨⟨h1, h2⟩, h3⟩, h4⟩, h5⟩ := h
+      exact SlotOk.mapT f true ks vs (mapFieldTB_sound f true h1) h2 (all_scalarOk _ _ h3)
+        (all_timeValOk true vs h4) (keysDistinctB_sound ks h5)
   | .int i, h => slotOkB_plain S f (.int i) (by simp only [slotOkB] at h; exact h)
   | .bool b, h => slotOkB_plain S f (.bool b) (by simp only [slotOkB] at h; exact h)
   | .f32 b, h => slotOkB_plain S f (.f32 b) (by simp only [slotOkB] at h; exact h)
@@ -374,7 +404,9 @@ end
   A schema with a recursive class `Node` (int32, optional string, a oneof of a bool and a
   `Node`, repeated `Node`, packed repeated sint64), the wrapper class `Int32Value`, and a class
   `Top` with a `Node`, a Timestamp, an `Optional[int]` wrapper, a `map<string, Node>`, a
-  `map<int32, float>` and an optional Duration.  `mEx` nests three instances deep, carries
+  `map<int32, float>`, an optional Duration, a repeated Timestamp (holding the epoch and a
+  pre-epoch datetime) and a `map<string, Duration>` (holding a zero and a negative timedelta).
+  `mEx` nests three instances deep, carries
   the unknown record "field 2047, varint 5" at two levels, and uses every field kind. -/
 namespace OkEx
 
@@ -393,7 +425,9 @@ def topD : MsgD :=
                { name := "w", num := 3, ty := .message, kind := .user 2, wraps := some .int32 },
                { name := "m1", num := 4, ty := .map, mapK := .string, mapV := .message, mapVKind := .user 0 },
                { name := "m2", num := 5, ty := .map, mapK := .int32, mapV := .float },
-               { name := "d", num := 6, ty := .message, kind := .duration, optional := true }] }
+               { name := "d", num := 6, ty := .message, kind := .duration, optional := true },
+               { name := "tl", num := 7, ty := .message, kind := .timestamp, repeated := true },
+               { name := "md", num := 8, ty := .map, mapK := .string, mapV := .message, mapVKind := .duration }] }
 
 def SEx : Schema := [nodeD, topD, wrapperD .int32]
 
@@ -414,7 +448,9 @@ def slEx : List Val :=
   [mid, .ts 1700000000123456, .int 42,
    .dict [.str [107], .str []] [leaf2, leaf0],
    .dict [.int 1, .int (-2)] [.f32 0x3fc00000, .f32 0],
-   .dur (-1500000)]
+   .dur (-1500000),
+   .list [.ts 0, .ts (-1500000), .ts 1700000000123456],
+   .dict [.str [122], .str [110], .str []] [.dur 0, .dur (-1500000), .dur 86400000001]]
 
 def mEx : Val := .msg 1 slEx false [] []
 
@@ -424,7 +460,10 @@ def bsEx : Bytes :=
    122, 42, 7, 18, 2, 104, 105, 248, 127, 5, 42, 0, 50, 3, 1, 172, 2, 248, 127, 5, 18, 11, 8, 128, 226, 207, 170, 6, 16,
    128, 148, 239, 58, 26, 2, 8, 42, 34, 12, 10, 1, 107, 18, 7, 18, 2, 104, 105, 248, 127, 5, 34, 0, 42, 7, 8, 1, 21, 0, 0,
    192, 63, 42, 16, 8, 254, 255, 255, 255, 255, 255, 255, 255, 255, 1, 21, 0, 0, 0, 0, 50, 22, 8, 255, 255, 255, 255, 255,
-   255, 255, 255, 255, 1, 16, 128, 182, 202, 145, 254, 255, 255, 255, 255, 1]
+   255, 255, 255, 255, 1, 16, 128, 182, 202, 145, 254, 255, 255, 255, 255, 1, 58, 0, 58, 17, 8, 254, 255, 255, 255, 255,
+   255, 255, 255, 255, 1, 16, 128, 202, 181, 238, 1, 58, 11, 8, 128, 226, 207, 170, 6, 16, 128, 148, 239, 58, 66, 3, 10,
+   1, 122, 66, 27, 10, 1, 110, 18, 22, 8, 255, 255, 255, 255, 255, 255, 255, 255, 255, 1, 16, 128, 182, 202, 145, 254,
+   255, 255, 255, 255, 1, 66, 9, 18, 7, 8, 128, 163, 5, 16, 232, 7]
 
 /-- `Node` does not define field 2047, and the three bytes are one well-formed record -/
 example : unkOkB nodeD unkEx = true := by decide
@@ -435,6 +474,7 @@ example : msgOkB SEx mEx = true := by decide
 /-- ... so it is in the domain of the round-trip theorem -/
 theorem mEx_ok : MsgOk SEx mEx := msgOkB_sound _ _ (by decide)
 
+set_option maxRecDepth 8000 in
 theorem mEx_dump : dumpVal SEx mEx = .ok bsEx := by decide
 
 /-- the checker is not trivially true: the same value with the oneof selection removed, with a
@@ -443,13 +483,22 @@ theorem mEx_dump : dumpVal SEx mEx = .ok bsEx := by decide
 example : msgOkB SEx (.msg 0 [.ph, .none, .bool true, .ph, .ph, .ph] false [] [Option.none]) = false := by decide
 example : msgOkB SEx (.msg 0 [.ph, .none, .ph, .ph, .ph, .ph] false [] [some 2]) = false := by decide
 example : msgOkB SEx (.msg 0 [.int 2147483648, .none, .ph, .ph, .ph, .ph] false [] [Option.none]) = false := by decide
-example : msgOkB SEx (.msg 1 [.ph, .ph, .ph, .ph, .dict [.int 1, .bool true] [.f32 0, .f32 0], .none] false [] []) = false := by
+example : msgOkB SEx (.msg 1 [.ph, .ph, .ph, .ph, .dict [.int 1, .bool true] [.f32 0, .f32 0], .none, .ph, .ph] false [] []) = false := by
   decide
+/-- ... and so are an out-of-range datetime in the repeated Timestamp field, a timedelta in it, a
+    datetime as a Duration map value; the same shapes with in-range values of the right type pass -/
+example : msgOkB SEx (.msg 1 [.ph, .ph, .ph, .ph, .ph, .none, .list [.ts 253402300800000000], .ph] false [] []) = false := by
+  decide
+example : msgOkB SEx (.msg 1 [.ph, .ph, .ph, .ph, .ph, .none, .list [.dur 0], .ph] false [] []) = false := by decide
+example : msgOkB SEx (.msg 1 [.ph, .ph, .ph, .ph, .ph, .none, .ph, .dict [.str []] [.ts 0]] false [] []) = false := by decide
+example : msgOkB SEx (.msg 1 [.ph, .ph, .ph, .ph, .ph, .none, .list [.ts 253402300799999999], .dict [.str []] [.dur 0]] false [] [])
+    = true := by decide
 example : msgOkB SEx (.msg 0 [.ph, .none, .ph, .ph, .ph, .ph] false [8, 5] [Option.none]) = false := by decide
 example : msgOkB SEx (.msg 0 [.ph, .none, .ph, .ph, .ph, .ph] false [0xf8, 0x7f] [Option.none]) = false := by decide
 
+set_option maxRecDepth 8000 in
 theorem bsEx_short : bsEx.length < 2 ^ 64 := by
-  have : bsEx.length ≤ 200 := by simp [bsEx]
+  have : bsEx.length ≤ 400 := by decide
   omega
 
 /-- **the hypotheses of `roundtrip_nested_partial` are jointly satisfiable by a non-trivial value**:
